@@ -140,6 +140,16 @@ def check_case(case, ctx):
         rings = cells
     else:
         rings = [None if p is None else refmodel.polygon_ring(p)[:-1] for p in polygons]
+    if spec["conv"] in ("cf2d", "shoc_simple"):
+        # whatever construction gives the other cells their shape, a cell whose centre
+        # coordinates are missing has none (and so can never be the answer to a lookup)
+        holes = spec["geom"]["holes"]
+        ni = len(holes[0])
+        for j, row in enumerate(holes):
+            for i, hole in enumerate(row):
+                ctx.check(not hole or polygons[j * ni + i] is None, "C04.holes_never_returned",
+                          lambda: f"cell ({j}, {i}) has no coordinates but polygons[{j * ni + i}] = "
+                          f"{polygons[j * ni + i].wkt}")
     hole_rings = _hole_rings(spec) if defined else []
     if not any(r is not None for r in rings):
         # (only for 2-D CF grids without bounds that are one cell wide: the synthesised cells
